@@ -354,4 +354,26 @@ CHECKS = {
         "stages": [rapid("determinism", "TestProp", 320, 8000, qs=16, ts=16, qt=900, tt=5400, schedule_dependent=True, shrinktime="30s"),
                    rapid("race", "TestProp", 48, 1600, qs=16, ts=16, qt=900, tt=5400, race=True, schedule_dependent=True, shrinktime="10s")],
     },
+    "C19": {
+        "title": "Archive then extract gives the same tree for any concurrency and resume point",
+        "level": "fault_enumeration",
+        "technique": "rapid property-based testing of zip/tar round trips with a gated io.ReaderAt that constructs out-of-order completion, plus enumeration of crash points in a re-executed child process; race-detector stage",
+        "level_text": ("Generated trees (nested and empty dirs, empty files, symlinks, many small files, one large file among small ones); zip x "
+                       "Concurrency in {-1, 1..16}; tar. The io.ReaderAt handed to ExtractZip delays the first data read of a chosen entry until N "
+                       "other entries have completed, so out-of-order completion is constructed, not hoped for. Crash stage: the test binary "
+                       "re-executes itself, runs ExtractZip with a resume file and calls os.Exit inside the j-th OnEntryDone, for every j (capped "
+                       "at 10 per case: first 4, last 2, 4 spread); the parent restarts the extraction with the same resume file (same or other "
+                       "worker count). Oracles: independent tree comparison with the source; ExtractResult counts == numbers of dirs/files/symlinks; "
+                       "after crash + restart the tree is complete; a -race build of the round-trip stage reports nothing."),
+        "level_note": "worker schedules beyond the constructed gate are sampled; the crash is a process exit inside the completion callback (after the resume file write), not a power loss.",
+        "rule": ("rapid draws (tree, format, workers, gate; crash stage: + restart workers). sub_evaluations = crash points exercised. Non-trivial: "
+                 ">=2 workers with a constructed out-of-order completion (round trip); a crash while a gated lower-index entry is in flight "
+                 "(crash stage). Distinct: SHA-1 of the spec."),
+        "assumptions": ["the destination directory exists and is empty, as the statement says"],
+        "required_classes": {"quick": ["format:tar", "format:zip", "schedule:constructed-out-of-order-completion", "crash:with-in-flight-lower-index-entry", "tree:one-large-among-small"],
+                             "thorough": ["format:tar", "format:zip", "schedule:constructed-out-of-order-completion", "crash:with-in-flight-lower-index-entry", "tree:one-large-among-small", "workers:-1", "workers:16"]},
+        "stages": [rapid("roundtrip", "TestProp", 1600, 48000, qs=16, ts=16, qt=600, tt=5400, schedule_dependent=True),
+                   rapid("crash", "TestCrash", 160, 6400, qs=16, ts=16, qt=900, tt=5400, schedule_dependent=True, shrinktime="20s"),
+                   rapid("race", "TestProp", 160, 4800, qs=16, ts=16, qt=900, tt=5400, race=True, schedule_dependent=True, shrinktime="10s")],
+    },
 }
